@@ -206,11 +206,44 @@ def mk_apply(shape, sign):
   return t
 
 
+def mk_flagged_fp(shape, sign):
+  """'... or leaving the gradient unchanged when it is flagged as containing zeros': bit-precise float32, the packed
+  contents are ARBITRARY bit patterns (inf / NaN included, e.g. left by a failed decomposition) - the flagged
+  application must return the gradient bit for bit."""
+
+  def t(ctx, it):
+    import itertools
+    from pyvc import fp
+    with fp.fp_mode():
+      m = it.load_module(DS)
+      r = 1
+      g = fp.opaque_fp("g", shape)
+      pre = m.Preconditioner(g, 0, 4096, False, m.PreconditionerType.ALL, sign * r)
+      pcs = []
+      for a, dim in enumerate(shape):
+        if r + 2 < dim:
+          raw = fp.opaque_fp(f"packed{a}", (dim, r + 2))
+          pcs.append(T.Tensor((dim, r + 2), T.float32,
+                              lambda idx, raw=raw, dim=dim: fp.SFP(z3.If(sym.sand(idx[0] == dim - 1, idx[1] == r).z,
+                                                                          z3.FPVal(1.0, fp.F32), raw.at(idx).z))))
+        else:
+          ctx.fail("flagged-fp task expects compressed axes only")
+      out = pre.preconditioned_grad(g, pcs)
+      for oidx in itertools.product(*[range(d) for d in shape]):
+        ctx.oblige("Preconditioner._precondition_block.post.flagged has_zeros => the gradient is returned bit for bit, whatever "
+                   "(finite or not) the packed contents are", out.at(oidx).same_bits(g.at(oidx)), detail=f"shape={shape} out index {oidx}")
+
+  return t
+
+
 def tasks(tier):
   shapes = [(4,), (4, 2), (2, 4)] if tier == "quick" else [(4,), (4, 2), (2, 4), (4, 4), (2, 4, 2)]
   return [Task(f"compressed application[shape={sh},sign={s_}]", mk_apply(sh, s_))
           for sh in shapes for s_ in (1, -1)] + [Task(f"_low_rank_root[sign={s_},padded={pd}]", mk_low_rank_root(s_, pd))
           for s_ in (1, -1) for pd in (True, False)] + [Task("pack/unpack[r>0]", mk_pack(+1)), Task("pack/unpack[r<0]", mk_pack(-1)),
+          Task("flagged application, float32 bit-precise[shape=(4,),r>0]", mk_flagged_fp((4,), 1)),
+          Task("flagged application, float32 bit-precise[shape=(4,),r<0]", mk_flagged_fp((4,), -1)),
+          Task("flagged application, float32 bit-precise[shape=(4, 4)]", mk_flagged_fp((4, 4), 1)),
           Task("_precond_dim/_should_compress", t_dims), Task("pack rejects outside precondition", t_pack_rejects)]
 
 
